@@ -331,6 +331,112 @@ class ExcFlow:
         for n in walk_shallow(e) if not isinstance(e, ast.Lambda) else ():
             if isinstance(n, ast.Call):
                 self._merge(out, self._call(n))
+                self._merge(out, self._none_in_join(n))
+            elif isinstance(n, ast.BinOp) and isinstance(n.op, ast.Add):
+                self._merge(out, self._none_in_concat(n))
+        return out
+
+    # -------------------------------------------- None in str-only operations
+    # Implicit raise sites: `sep.join(xs)` where the inferred element types of
+    # xs include None, and `text + x` where x may be None, raise TypeError.
+    # The type inference is flow-insensitive, so a site is attributed only
+    # when nothing in the function tests the operand before the site (a test
+    # that mentions it -- `if x`, `x is None`, `x is not None`, an assert --
+    # is read as the guard it almost always is: the rule may miss, it does
+    # not alarm on guarded code).
+    def _elem_types(self, e):
+        fi = self._fi
+        if isinstance(e, ast.BinOp) and isinstance(e.op, ast.Add):
+            return self._elem_types(e.left) | self._elem_types(e.right)
+        if isinstance(e, (ast.List, ast.Tuple, ast.Set)):
+            out = set()
+            for el in e.elts:
+                if isinstance(el, ast.Starred):
+                    out |= self._elem_types(el.value)
+                else:
+                    out |= {(t, src(el)) for t in self.P.type_of(
+                        fi, fi.module, el)}
+            return out
+        if isinstance(e, ast.Call) and isinstance(e.func, ast.Name) \
+                and e.func.id in ("list", "tuple", "sorted", "reversed") \
+                and len(e.args) == 1:
+            return self._elem_types(e.args[0])
+        return {(t, src(e)) for t in self.P.elem_type_of(fi, fi.module, e)}
+
+    def _tested_before(self, text, node):
+        """Some test at or above the site's line looks at `text` the way a
+        None guard does: its truth value, a comparison with None, or (for a
+        container) a membership test of None."""
+        fn = self._fi.node
+        line = getattr(node, "lineno", 0)
+
+        def guards(t):
+            if src(t) == text:
+                return True
+            if isinstance(t, ast.UnaryOp) and isinstance(t.op, ast.Not):
+                return guards(t.operand)
+            if isinstance(t, ast.BoolOp):
+                return any(guards(v) for v in t.values)
+            if isinstance(t, ast.Compare) and len(t.ops) == 1:
+                a, b = t.left, t.comparators[0]
+                isnone = lambda x: isinstance(x, ast.Constant) \
+                    and x.value is None
+                if isinstance(t.ops[0], (ast.Is, ast.IsNot, ast.Eq,
+                                         ast.NotEq)):
+                    return (src(a) == text and isnone(b)) or (
+                        src(b) == text and isnone(a))
+                if isinstance(t.ops[0], (ast.In, ast.NotIn)):
+                    return isnone(a) and src(b) == text
+            if isinstance(t, ast.Call) and isinstance(t.func, ast.Name) \
+                    and t.func.id in ("all", "any", "isinstance") and t.args:
+                return text in src(t.args[0])
+            return False
+        for n in ast.walk(fn):
+            tests = []
+            if isinstance(n, (ast.If, ast.While, ast.IfExp, ast.Assert)):
+                tests = [n.test]
+            elif isinstance(n, ast.comprehension):
+                tests = list(n.ifs)
+            for t in tests:
+                if getattr(t, "lineno", 0) <= line and guards(t):
+                    return True
+        return False
+
+    def _none_in_join(self, call):
+        f = call.func
+        if not (isinstance(f, ast.Attribute) and f.attr == "join"
+                and len(call.args) == 1 and not call.keywords):
+            return {}
+        fi = self._fi
+        if self.P.type_of(fi, fi.module, f.value) != {"str"}:
+            return {}
+        arg = call.args[0]
+        if isinstance(arg, (ast.GeneratorExp, ast.ListComp)):
+            return {}
+        culprits = sorted({txt for t, txt in self._elem_types(arg)
+                           if t == "none"})
+        culprits = [c for c in culprits if not self._tested_before(c, call)]
+        if not culprits:
+            return {}
+        site = "%s str.join(%s): element %s may be None" % (
+            self._loc(call), src(arg), ", ".join(culprits))
+        return {("builtins.TypeError", site, ()): {
+            "via": None, "amb": False, "implicit": "join"}}
+
+    def _none_in_concat(self, n):
+        fi = self._fi
+        out = {}
+        for a, b in ((n.left, n.right), (n.right, n.left)):
+            if self.P.type_of(fi, fi.module, a) != {"str"}:
+                continue
+            if isinstance(b, ast.BinOp):
+                continue
+            tb = self.P.type_of(fi, fi.module, b)
+            if "none" in tb and not self._tested_before(src(b), n):
+                site = "%s %s: %s may be None in a string concatenation" % (
+                    self._loc(n), src(n)[:60], src(b))
+                out[("builtins.TypeError", site, ())] = {
+                    "via": None, "amb": False, "implicit": "concat"}
         return out
 
     def _call(self, call):
